@@ -8,3 +8,4 @@ def run(ck):
     gradient.r1_sentinel_protocol(ck, P)
     gradient.r3_transform_status(ck, P)
     gradient.r4_sentinel_contents(ck, P)
+    gradient.r6_transform_column(ck, P)
